@@ -732,11 +732,12 @@ pub async fn handle_changes(
                 continue;
             }
         } else {
-            // empty versions
-            if change
-                .versions()
-                .all(|v| seen.contains_key(&(change.actor_id, v)))
-            {
+            // empty versions: a duplicate only if an empty changeset (and no chunk
+            // of the version, which says nothing about the rest of it) was recorded
+            if change.versions().all(|v| {
+                seen.get(&(change.actor_id, v))
+                    .is_some_and(|seqs| seqs.is_empty())
+            }) {
                 continue;
             }
         }
